@@ -721,7 +721,11 @@ class Evaluator:
                 return set(out)
             return out
         if isinstance(e, ast.Lambda):
-            raise Undecided("lambda")
+            fd = ast.FunctionDef(name="<lambda>", args=e.args, body=[ast.copy_location(ast.Return(value=e.body), e)], decorator_list=[], returns=None, type_comment=None)
+            ast.copy_location(fd, e)
+            if any(isinstance(x, (ast.Yield, ast.YieldFrom)) for x in ast.walk(e.body)):
+                raise Undecided("lambda with yield")
+            return ("closure", fd, env, mod, cls)
         raise Undecided("expression %s" % type(e).__name__)
 
     def _call(self, e, env, mod, cls):
@@ -729,8 +733,6 @@ class Evaluator:
         if txt in self.hooks:
             h = self.hooks[txt]
             return h() if callable(h) else h
-        if any(k.arg is None for k in e.keywords):
-            raise Undecided("double-star arguments")
         if any(isinstance(a, ast.Starred) for a in e.args):
             # f(a, *rest): the starred operand must evaluate to a list / tuple; the call is re-written with its elements as constants of the environment
             env = dict(env)
@@ -793,6 +795,11 @@ class Evaluator:
                 if isinstance(v, (Obj, ClassRef, SuperRef)) or (isinstance(v, tuple) and v and v[0] in ("func", "pyfunc", "method", "pymethod")):
                     raise Undecided("type() of an object")
                 return type(v)
+            if nm == "vars" and len(e.args) == 1 and not e.keywords:
+                v = self._expr(e.args[0], env, mod, cls)
+                if isinstance(v, Obj) and v.mod != "builtins":
+                    return v.attrs   # the object's own dictionary: changes to it are changes to the object
+                raise Undecided("vars() of %s" % type(v).__name__)
             if nm in ("getattr", "hasattr") and len(e.args) in (2, 3):
                 o = self._expr(e.args[0], env, mod, cls)
                 an = self._expr(e.args[1], env, mod, cls)
@@ -816,7 +823,10 @@ class Evaluator:
             if nm in ("len", "int", "bytes", "str", "bool", "list", "tuple", "sorted", "min", "max", "sum", "abs", "range", "reversed", "any", "all",
                       "enumerate", "zip", "hex", "ord", "chr", "divmod", "set", "bytearray", "dict", "pow", "bin", "oct", "round", "repr"):
                 args = [self._expr(a, env, mod, cls) for a in e.args]
-                kw = {k.arg: self._expr(k.value, env, mod, cls) for k in e.keywords}
+                kw = self._kwargs(e, env, mod, cls)
+                for k_ in ("key",):
+                    if k_ in kw and isinstance(kw[k_], tuple) and kw[k_] and kw[k_][0] in ("closure", "func", "method", "pyfunc"):
+                        kw[k_] = (lambda fv: (lambda *a_: self._apply(fv, list(a_), {}, e)))(kw[k_])
                 if nm in ("len", "bool") and len(args) == 1 and isinstance(args[0], Obj) and args[0].mod != "builtins":
                     ok, r = self._obj_method(args[0], "__len__" if nm == "len" else "__bool__", [])
                     if ok:
@@ -841,7 +851,23 @@ class Evaluator:
                 return r
         f = self._expr(e.func, env, mod, cls)
         args = [self._expr(a, env, mod, cls) for a in e.args]
-        kw = {k.arg: self._expr(k.value, env, mod, cls) for k in e.keywords}
+        kw = self._kwargs(e, env, mod, cls)
+        return self._apply(f, args, kw, e)
+
+    def _kwargs(self, e, env, mod, cls):
+        kw = {}
+        for k in e.keywords:
+            v = self._expr(k.value, env, mod, cls)
+            if k.arg is None:
+                # f(**d): a dictionary with string keys, as Python requires
+                if not isinstance(v, dict) or not all(isinstance(x, str) for x in v):
+                    raise Undecided("double-star argument of %s" % type(v).__name__)
+                kw.update(v)
+            else:
+                kw[k.arg] = v
+        return kw
+
+    def _apply(self, f, args, kw, e):
         if isinstance(f, tuple) and f and f[0] == "noop":
             return None
         if isinstance(f, tuple) and f and f[0] == "closure":
